@@ -609,7 +609,9 @@ class Decimal(DataType, dtypes.Decimal):
         return dec.quantize(self._exp, context=self._ctx)
 
     def coerce(self, data_container: PandasObject) -> PandasObject:
-        return data_container.apply(self.coerce_value)  # type: ignore
+        # apply to the elements as they are stored: the result of applying
+        # a function to a categorical is a categorical again
+        return data_container.astype(object).apply(self.coerce_value)  # type: ignore
 
     def check(  # type: ignore
         self,
